@@ -213,10 +213,10 @@ impl Scope {
                             //     )));
                         }
                         // only the transmitted presence bits exist, further known extension
-                        // fields are absent
-                        let range = bits.pos()
-                            ..bits.pos() + read_number_of_ext_fields.min(*number_of_ext_fields);
-                        bits.set_pos(range.start.saturating_add(read_number_of_ext_fields)); // skip bit-field
+                        // fields are absent; the bits of additions this reader does not know stay
+                        // in the range and are consumed by `skip_unknown_extension_additions`
+                        let range = bits.pos()..bits.pos().saturating_add(read_number_of_ext_fields);
+                        bits.set_pos(range.end); // skip bit-field
                         *self = Scope::AllBitField(range);
                     } else {
                         *self = Scope::ExtensibleSequenceEmpty(name);
@@ -817,6 +817,29 @@ impl<B: ScopedBitRead> UperReader<B> {
         self.bits.remaining()
     }
 
+    /// Consumes the extension additions the sender knows but this reader does not: their
+    /// presence bits are still in the bit field of the scope and each present one is an open type
+    /// that is skipped by its length (ITU-T X.691 | ISO/IEC 8825-2:2015, chapter 19.9).
+    fn skip_unknown_extension_additions(&mut self) -> Result<(), Error> {
+        loop {
+            let pending = match &self.scope {
+                // the extension header has not been looked at yet (no known addition at all)
+                Some(Scope::ExtensibleSequence {
+                    calls_until_ext_bitfield,
+                    ..
+                }) => *calls_until_ext_bitfield == 0,
+                Some(Scope::AllBitField(range)) => range.start < range.end,
+                _ => false,
+            };
+            if !pending {
+                return Ok(());
+            }
+            if let Some(true) = self.read_bit_field_entry(true)? {
+                self.with_buffer(|_| Ok(()))?;
+            }
+        }
+    }
+
     /// Fails unless `count` items of `bits_per_item` bits each are still available, so that no
     /// buffer is allocated for an announced length the input cannot possibly hold.
     #[inline]
@@ -997,7 +1020,11 @@ impl<B: ScopedBitRead> Reader for UperReader<B> {
                         calls_until_ext_bitfield: (extension_after + 1) as usize,
                         number_of_ext_fields: (C::FIELD_COUNT - (extension_after + 1)) as usize,
                     },
-                    f,
+                    |r| {
+                        let value = f(r)?;
+                        r.skip_unknown_extension_additions()?;
+                        Ok(value)
+                    },
                 )
             } else {
                 r.scope_pushed(Scope::OptBitField(range), f)
